@@ -68,6 +68,15 @@ pub fn eval(ctx: &Ctx, op: &str, a: &[&str]) -> Option<String> {
             let panic = if class == "PANIC" { format!("|panic={}", o.stderr.lines().find(|l| l.contains("panicked")).unwrap_or("").replace('\t', " ")) } else { String::new() };
             Some(format!("{class}|{}|{}{panic}", o.code, String::from_utf8_lossy(&o.stdout).replace('\n', "\\n")))
         }
+        // st.cmd2 kinds precisions header delim shape bits : the full option surface of `sfs stat` (header row, delimiter, one precision per statistic)
+        "st.cmd2" => {
+            let input = crate::npy::write_f8(&parse_nats(a[4]), &parse_bits(a[5]));
+            let mut args = vec!["stat".to_string(), "-s".into(), a[0].to_string(), "--precision".into(), a[1].to_string()];
+            if a[2] == "1" { args.push("-H".into()); }
+            if a[3] != "-" { args.push("-d".into()); args.push(String::from_utf8(parse_hex(a[3])).ok()?); }
+            let o = cli::run_sfs(&ctx.sfs_bin, &args, &input);
+            Some(format!("{}|{}|{}", cli::class(&o), o.code, hex(&o.stdout)))
+        }
         // st.rel relation kind shape bits param -> value on x ; value on T(x)
         "st.rel" => {
             let (rel, kind, shape, data) = (a[0], a[1], parse_nats(a[2]), parse_bits(a[3]));
@@ -157,6 +166,21 @@ pub fn gen_c06(ctx: &Ctx, rng: &mut Rng, out: &mut Vec<String>) {
             let ks = applicable(shape.len(), &shape);
             out.push(format!("st.cmd\t{}\t{}\t{}\t{}", ks.join(","), *rng.pick(&[12usize, 6, 15]), nats(&shape), bits(&data)));
         }
+    }
+    // (b') the option surface of `sfs stat`: header row, delimiter, one precision for all / one per statistic / a wrong number of them,
+    //      a statistic that does not apply in first / middle / last position
+    for i in 0..(if t { 400 } else { 60 }) {
+        let shape = match i % 4 { 0 => vec![3, 3], 1 => shapes::random_shape(rng, 1, 1, 3, 30, 100), 2 => shapes::random_shape(rng, 2, 2, 2, 8, 100), _ => shapes::random_shape(rng, 3, 4, 2, 4, 200) };
+        let n: usize = shape.iter().product();
+        let data = counts(rng, n, 1);
+        let mut ks: Vec<&str> = applicable(shape.len(), &shape);
+        rng.shuffle(&mut ks);
+        ks.truncate(rng.range(1, 5) as usize);
+        if i % 5 == 4 { let bad = *rng.pick(&["f4", "king", "pi", "fst"]); let pos = rng.below(ks.len() as u64 + 1) as usize; ks.insert(pos, bad); }
+        let nprec = match i % 6 { 0 => 1, 1 | 2 => ks.len(), 3 => ks.len() + 1, 4 => 2, _ => 1 };
+        let precs: Vec<String> = (0..nprec).map(|_| rng.range(0, 15).to_string()).collect();
+        let delim = match i % 4 { 0 => "-".to_string(), 1 => hex(b"\t"), 2 => hex(b";"), _ => hex(b" ") };
+        out.push(format!("st.cmd2\t{}\t{}\t{}\t{delim}\t{}\t{}", ks.join(","), precs.join(","), (i % 3 != 0) as u8, nats(&shape), bits(&data)));
     }
     // (c) genotype level: call sets -> create -> statistics, against the definitions evaluated on the genotypes
     for i in 0..(if t { 1500 } else { 150 }) {
